@@ -18,7 +18,7 @@
    struct copy made by AddMPTBatch shares the refcount map and the interior nodes with the module's trie).  On
    histories without dropped blocks the two are the same function ([C11_before_fix_same_without_drops]). *)
 From NG Require Import Common.Tactics TrieRC.Model TrieRC.AList TrieRC.Pointwise TrieRC.Slots TrieRC.Proofs
-  TrieRC.Read TrieRC.Harmless TrieRC.Theorems TrieRC.Concrete.
+  TrieRC.Read TrieRC.Harmless TrieRC.Theorems TrieRC.Concrete TrieRC.Persisted.
 Open Scope Z_scope.
 
 (* ModeLatest: after every committed block (any prefix of any history) the table is exactly
@@ -117,6 +117,28 @@ Theorem C11_flush_order_irrelevant : forall m idx todo1 todo2 rc tbl r1 t1 r2 t2
   forall h, lookup r1 h = lookup r2 h /\ lookup t1 h = lookup t2 h.
 Proof. exact flush_order_irrelevant. Qed.
 Print Assumptions C11_flush_order_irrelevant.
+
+(* WHICH height the collector is run for.  The GC deletes from the persistent store, which holds the table after the p
+   persisted blocks; [s] is that persisted state.  With the target tryRunGC computes from the PERSISTED height
+   ([gc_target p mtb period] = ((p - mtb) / period) * period) no entry that a state traceable for the persisted chain
+   (p - mtb <= j <= p) needs is removed, and the invariant holds again afterwards (so those states read back on the
+   running node and on a node restarted from the store alone) *)
+Theorem C11_gc_safe_wrt_persisted : forall (nb : hash -> bytes) H g s mtb period,
+  Inv nb MGC H g s ->
+  let p := s_n s in
+  let G := gc_target p mtb period in
+  (forall j h, (p - mtb <= j <= p)%nat -> (g <= j)%nat -> 0 < occT h (trie_at H j) ->
+     lookup (gc (Z.of_nat G) (s_tbl s)) h = lookup (s_tbl s) h /\ lookup (s_tbl s) h <> None) /\
+  exists s', step true MGC s (EGC G) = Some s' /\ Inv nb MGC H (Nat.max g G) s'.
+Proof. exact gc_safe_wrt_persisted. Qed.
+Print Assumptions C11_gc_safe_wrt_persisted.
+
+(* with the target computed from the height of the chain in memory (p + k, k blocks only in the write cache) the
+   claim is false: witness with MTB 2, 4 persisted blocks, 2 cached ones *)
+Definition C11_gc_from_memory_height_statement : Prop := forall nb, gc_from_memory_height_statement nb.
+Theorem C11_gc_from_memory_height_refuted : ~ gc_from_memory_height_statement (fun h => h).
+Proof. exact gc_from_memory_height_refuted. Qed.
+Print Assumptions C11_gc_from_memory_height_refuted.
 
 (* ================= the interface hypothesis discharged against the concrete trie of C10 =================
    TrieRC/Concrete.v: [put_trace], [delete_trace], [put_batch_trace] list the addRef/removeRef calls of Trie.Put,
